@@ -10,7 +10,7 @@ RULE = (
     "distinct = hash of the configuration; trivial = no option restricts anything"
 )
 ASSUMPTIONS = ["filter_ and stop are pure functions of the node (the library may evaluate stop more than once per node)"]
-GATES = ["mon.C06.sequence", "C06.stop_on_start", "C06.filtered_with_visible_children", "C06.stop_below_filtered", "C06.empty_group", "C06.maxlevel_le_0", "C06.maxlevel_cuts"]
+GATES = ["mon.C06.sequence", "C06.stop_on_start", "C06.filtered_with_visible_children", "C06.stop_below_filtered", "C06.empty_group", "C06.maxlevel_le_0", "C06.maxlevel_cuts", "C06.predicate_objects_reused"]
 
 
 def plan(tier, seed, jobs):
@@ -45,7 +45,7 @@ class TreeRef:
         }
 
 
-def check_config(ctx, nodes, idmap, tr, par, stop, hidden, maxlevel, case, use_none=False):
+def check_config(ctx, nodes, idmap, tr, par, stop, hidden, maxlevel, case, use_none=False, fns=None):
     from ..battery import ITERS
 
     adm, exp = tr.expected(stop, hidden, maxlevel)
@@ -63,10 +63,14 @@ def check_config(ctx, nodes, idmap, tr, par, stop, hidden, maxlevel, case, use_n
     if any(not g for g in exp["group"]):
         ctx.count("C06.empty_group")
     kw = {}
-    if not (use_none and not stop):
-        kw["stop"] = lambda n: idmap[id(n)] in stop
-    if not (use_none and not hidden):
-        kw["filter_"] = lambda n: idmap[id(n)] not in hidden
+    if fns is not None:
+        # long-lived predicate objects whose answers follow the current sets
+        kw["stop"], kw["filter_"] = fns
+    else:
+        if not (use_none and not stop):
+            kw["stop"] = lambda n: idmap[id(n)] in stop
+        if not (use_none and not hidden):
+            kw["filter_"] = lambda n: idmap[id(n)] not in hidden
     if not (use_none and maxlevel is None):
         kw["maxlevel"] = maxlevel
     ok = True
@@ -137,9 +141,59 @@ def run(ctx):
             case = {"family": fam, "par": list(par), "kind": kind}
             ctx.case((par, s, ml, stop, hidden), sample=dict(case, start=s, stop=sorted(stop), hidden=sorted(hidden), maxlevel=ml) if r % 100 == 0 else None)
             check_config(ctx, nodes, idmap, tr, par, stop, hidden, ml, case, use_none=rng.random() < 0.5)
+    reused_predicates(ctx)
+
+
+def reused_predicates(ctx):
+    """The same stop / filter_ function objects are passed to many iterations while the sets they consult (and
+    the tree) change in between, as state-dependent user predicates do."""
+    from .. import trees as TR
+
+    T = ctx.tier == "thorough"
+    nh = (3000 if T else 240) // ctx.nshards + 1
+    for h in range(nh):
+        rng = ctx.rng("reuse", h)
+        fam = TR.READ_FAMILIES[h % len(TR.READ_FAMILIES)]
+        k = rng.randint(4, 10)
+        cur = {"stop": frozenset(), "hidden": frozenset(), "idmap": None}
+        stopf = lambda n: cur["idmap"][id(n)] in cur["stop"]  # noqa: E731
+        filtf = lambda n: cur["idmap"][id(n)] not in cur["hidden"]  # noqa: E731
+        rounds = []
+        for nodes, par, ch, case in TR.evolving_universe(ctx, rng, fam, k, rng.randint(3, 10)):
+            cur["idmap"] = {id(o): i for i, o in enumerate(nodes)}
+            for _ in range(2):
+                cur["stop"] = frozenset(x for x in range(k) if rng.random() < rng.choice([0.0, 0.15, 0.35]))
+                cur["hidden"] = frozenset(x for x in range(k) if rng.random() < rng.choice([0.0, 0.3]))
+                s = rng.randrange(k)
+                ml = rng.choice([None, None, 1, 2, 3])
+                rounds.append([len(case["history"]), s, sorted(cur["stop"]), sorted(cur["hidden"]), ml])
+                ctx.count("C06.predicate_objects_reused")
+                ctx.case(("reuse", h, len(rounds)), nontrivial=True)
+                tr = TreeRef(ch, s)
+                if not check_config(ctx, nodes, cur["idmap"], tr, par, cur["stop"], cur["hidden"], ml, dict(case, rounds=[list(x) for x in rounds]), fns=(stopf, filtf)):
+                    return
 
 
 def replay(ctx, wit):
+    if "rounds" in wit["case"]:
+        from .. import trees as TR
+
+        c = wit["case"]
+        ctx.case(("replay",))
+        cur = {"stop": frozenset(), "hidden": frozenset(), "idmap": None}
+        stopf = lambda n: cur["idmap"][id(n)] in cur["stop"]  # noqa: E731
+        filtf = lambda n: cur["idmap"][id(n)] not in cur["hidden"]  # noqa: E731
+        for step, (nodes, par, ch) in enumerate(TR.replay_universe(c)):
+            cur["idmap"] = {id(o): i for i, o in enumerate(nodes)}
+            for st, s, stop, hidden, ml in c["rounds"]:
+                if st == step:
+                    cur["stop"], cur["hidden"] = frozenset(stop), frozenset(hidden)
+                    check_config(ctx, nodes, cur["idmap"], TreeRef(ch, s), par, cur["stop"], cur["hidden"], ml, c, fns=(stopf, filtf))
+        return
+    _replay_static(ctx, wit)
+
+
+def _replay_static(ctx, wit):
     from .. import trees as TR
 
     c = wit["case"]
